@@ -227,6 +227,35 @@ def rule_k6(chk: Check, F, ix: Index, thorough: bool):
         chk.require(not bad and not off, "K6-continuation", "in_continued_string", f.where,
                     f"a one-quote string continues on the next line exactly when its line ends in backslash + LF or backslash + CRLF "
                     f"(and a string is open); the test gives {bad or 'True with no open string'}")
+    # the "line goes on" flag is consumed by the line it was set for: whenever the line loop takes neither the open-string
+    # branch nor the new-statement branch, it clears the flag (or raises) before scanning the line — otherwise the next
+    # logical line skips indentation handling
+    from ..pyflow import stmt_paths
+    tk = ix.get("_tokenize")
+    outer = [n for n in tk.node.body if isinstance(n, ast.While) and isinstance(n.test, ast.Constant) and n.test.value is True]
+    chk.count("K6-continuation")
+    if len(outer) != 1:
+        raise AnalysisError("line loop of _tokenize not found")
+    dispatch = [st for st in outer[0].body if isinstance(st, ast.If)]
+    leaks = []
+    if dispatch:
+        try:
+            for pth in stmt_paths([dispatch[0]]):
+                conds = {x[1]: x[2] for x in pth if x[0] == "cond"}
+                new_stmt = [c for c in conds if "continued" in c and "parenlev" in c]
+                if conds.get("state.end_progs") is not False or not new_stmt or conds[new_stmt[0]] is not False:
+                    continue
+                if pth[-1][1] in ("raise", "break", "continue", "return"):
+                    continue
+                if "state.continued = False" not in [x[1] for x in pth if x[0] == "do"]:
+                    leaks.append([x[1:] for x in pth if x[0] == "cond"])
+        except AnalysisError as e:
+            leaks.append(f"dispatch not analysable: {e}")
+    else:
+        leaks.append("no dispatch")
+    chk.require(not leaks, "K6-continuation", "_tokenize:continued-flag-consumed", tk.where,
+                f"a continued line can be scanned without clearing `state.continued` (path {leaks[:1]}): the flag leaks into the next "
+                f"logical line, whose indentation is then ignored (`x = (1 + \\⏎ 2)⏎    y = 3` is accepted)")
     sp = F.need("SearchPath")
     an = rx.Analysis({"sp": sp}, exhaustive=thorough)
     pf = an.witness_not_prefix_free("sp")
